@@ -89,6 +89,16 @@ pub fn block<T>(f: impl std::future::Future<Output = T>) -> Result<T, String> {
     vcommon::par::guard(|| current_thread_rt().block_on(f))
 }
 
+/// Await `f`, converting a panic inside it into Err(message @ location): separates a panic of the
+/// original plan (a skip for the round-trip checks) from a panic of the variant under test.
+pub async fn guarded<T>(f: impl std::future::Future<Output = T>) -> Result<T, String> {
+    use futures::FutureExt;
+    match std::panic::AssertUnwindSafe(f).catch_unwind().await {
+        Ok(v) => Ok(v),
+        Err(_) => Err(vcommon::par::take_last_panic().unwrap_or_else(|| "<panic>".into())),
+    }
+}
+
 /// Operator names occurring in a physical plan text (for evidence histograms).
 pub fn operators_in(plan_text: &str) -> Vec<String> {
     plan_text.lines().filter_map(|l| l.trim_start().split(|c: char| c == ':' || c == ' ').next().map(|s| s.to_string())).filter(|s| s.ends_with("Exec")).collect()
